@@ -951,18 +951,18 @@ static const yytype_int16 yyrline[] =
      479,   484,   485,   491,   494,   510,   519,   561,   562,   567,
      584,   598,   612,   626,   644,   645,   651,   650,   667,   666,
      687,   686,   711,   717,   777,   778,   779,   780,   781,   782,
-     788,   809,   840,   845,   862,   867,   887,   888,   902,   903,
-     904,   905,   906,   910,   911,   925,   929,  1025,  1073,  1134,
-    1179,  1180,  1184,  1219,  1272,  1327,  1358,  1365,  1372,  1385,
-    1396,  1407,  1418,  1429,  1440,  1451,  1462,  1477,  1493,  1505,
-    1580,  1618,  1522,  1747,  1770,  1782,  1810,  1829,  1852,  1900,
-    1907,  1914,  1913,  1960,  1959,  2010,  2018,  2026,  2034,  2042,
-    2050,  2058,  2062,  2070,  2071,  2096,  2116,  2144,  2218,  2250,
-    2268,  2279,  2322,  2338,  2358,  2368,  2367,  2376,  2390,  2391,
-    2396,  2406,  2421,  2420,  2433,  2434,  2439,  2472,  2497,  2553,
-    2560,  2566,  2572,  2582,  2586,  2594,  2606,  2620,  2627,  2634,
-    2659,  2671,  2683,  2695,  2710,  2722,  2737,  2780,  2801,  2836,
-    2871,  2905,  2935,  2957,  2967,  2977,  2987,  2997,  3017,  3037
+     788,   809,   840,   848,   865,   873,   893,   894,   908,   909,
+     910,   911,   912,   916,   917,   931,   935,  1031,  1079,  1140,
+    1185,  1186,  1190,  1225,  1278,  1333,  1364,  1371,  1378,  1391,
+    1402,  1413,  1424,  1435,  1446,  1457,  1468,  1483,  1499,  1511,
+    1586,  1624,  1528,  1753,  1776,  1788,  1816,  1835,  1858,  1906,
+    1913,  1920,  1919,  1966,  1965,  2016,  2024,  2032,  2040,  2048,
+    2056,  2064,  2068,  2076,  2077,  2102,  2122,  2150,  2224,  2256,
+    2274,  2285,  2328,  2344,  2364,  2374,  2373,  2382,  2396,  2397,
+    2402,  2412,  2427,  2426,  2439,  2440,  2445,  2478,  2503,  2559,
+    2566,  2572,  2578,  2588,  2592,  2600,  2612,  2626,  2633,  2640,
+    2665,  2677,  2689,  2701,  2716,  2728,  2743,  2786,  2807,  2842,
+    2877,  2911,  2941,  2963,  2973,  2983,  2993,  3003,  3023,  3043
 };
 #endif
 
@@ -2736,12 +2736,15 @@ yyreduce:
       {
         (yyval.modifier).flags = STRING_FLAGS_BASE64;
         (yyval.modifier).alphabet = ss_new(DEFAULT_BASE64_ALPHABET);
+
+        if ((yyval.modifier).alphabet == NULL)
+          fail_with_error(ERROR_INSUFFICIENT_MEMORY);
       }
-#line 2741 "libyara/grammar.c"
+#line 2744 "libyara/grammar.c"
     break;
 
   case 53: /* string_modifier: "<base64>" '(' "text string" ')'  */
-#line 846 "libyara/grammar.y"
+#line 849 "libyara/grammar.y"
       {
         int result = ERROR_SUCCESS;
 
@@ -2758,20 +2761,23 @@ yyreduce:
         (yyval.modifier).flags = STRING_FLAGS_BASE64;
         (yyval.modifier).alphabet = (yyvsp[-1].sized_string);
       }
-#line 2762 "libyara/grammar.c"
+#line 2765 "libyara/grammar.c"
     break;
 
   case 54: /* string_modifier: "<base64wide>"  */
-#line 863 "libyara/grammar.y"
+#line 866 "libyara/grammar.y"
       {
         (yyval.modifier).flags = STRING_FLAGS_BASE64_WIDE;
         (yyval.modifier).alphabet = ss_new(DEFAULT_BASE64_ALPHABET);
+
+        if ((yyval.modifier).alphabet == NULL)
+          fail_with_error(ERROR_INSUFFICIENT_MEMORY);
       }
-#line 2771 "libyara/grammar.c"
+#line 2777 "libyara/grammar.c"
     break;
 
   case 55: /* string_modifier: "<base64wide>" '(' "text string" ')'  */
-#line 868 "libyara/grammar.y"
+#line 874 "libyara/grammar.y"
       {
         int result = ERROR_SUCCESS;
 
@@ -2788,17 +2794,17 @@ yyreduce:
         (yyval.modifier).flags = STRING_FLAGS_BASE64_WIDE;
         (yyval.modifier).alphabet = (yyvsp[-1].sized_string);
       }
-#line 2792 "libyara/grammar.c"
-    break;
-
-  case 56: /* regexp_modifiers: %empty  */
-#line 887 "libyara/grammar.y"
-                                          { (yyval.modifier).flags = 0; }
 #line 2798 "libyara/grammar.c"
     break;
 
+  case 56: /* regexp_modifiers: %empty  */
+#line 893 "libyara/grammar.y"
+                                          { (yyval.modifier).flags = 0; }
+#line 2804 "libyara/grammar.c"
+    break;
+
   case 57: /* regexp_modifiers: regexp_modifiers regexp_modifier  */
-#line 889 "libyara/grammar.y"
+#line 895 "libyara/grammar.y"
       {
         if ((yyvsp[-1].modifier).flags & (yyvsp[0].modifier).flags)
         {
@@ -2809,47 +2815,47 @@ yyreduce:
           (yyval.modifier).flags = (yyvsp[-1].modifier).flags | (yyvsp[0].modifier).flags;
         }
       }
-#line 2813 "libyara/grammar.c"
-    break;
-
-  case 58: /* regexp_modifier: "<wide>"  */
-#line 902 "libyara/grammar.y"
-                    { (yyval.modifier).flags = STRING_FLAGS_WIDE; }
 #line 2819 "libyara/grammar.c"
     break;
 
-  case 59: /* regexp_modifier: "<ascii>"  */
-#line 903 "libyara/grammar.y"
-                    { (yyval.modifier).flags = STRING_FLAGS_ASCII; }
+  case 58: /* regexp_modifier: "<wide>"  */
+#line 908 "libyara/grammar.y"
+                    { (yyval.modifier).flags = STRING_FLAGS_WIDE; }
 #line 2825 "libyara/grammar.c"
     break;
 
-  case 60: /* regexp_modifier: "<nocase>"  */
-#line 904 "libyara/grammar.y"
-                    { (yyval.modifier).flags = STRING_FLAGS_NO_CASE; }
+  case 59: /* regexp_modifier: "<ascii>"  */
+#line 909 "libyara/grammar.y"
+                    { (yyval.modifier).flags = STRING_FLAGS_ASCII; }
 #line 2831 "libyara/grammar.c"
     break;
 
-  case 61: /* regexp_modifier: "<fullword>"  */
-#line 905 "libyara/grammar.y"
-                    { (yyval.modifier).flags = STRING_FLAGS_FULL_WORD; }
+  case 60: /* regexp_modifier: "<nocase>"  */
+#line 910 "libyara/grammar.y"
+                    { (yyval.modifier).flags = STRING_FLAGS_NO_CASE; }
 #line 2837 "libyara/grammar.c"
     break;
 
-  case 62: /* regexp_modifier: "<private>"  */
-#line 906 "libyara/grammar.y"
-                    { (yyval.modifier).flags = STRING_FLAGS_PRIVATE; }
+  case 61: /* regexp_modifier: "<fullword>"  */
+#line 911 "libyara/grammar.y"
+                    { (yyval.modifier).flags = STRING_FLAGS_FULL_WORD; }
 #line 2843 "libyara/grammar.c"
     break;
 
-  case 63: /* hex_modifiers: %empty  */
-#line 910 "libyara/grammar.y"
-                                          { (yyval.modifier).flags = 0; }
+  case 62: /* regexp_modifier: "<private>"  */
+#line 912 "libyara/grammar.y"
+                    { (yyval.modifier).flags = STRING_FLAGS_PRIVATE; }
 #line 2849 "libyara/grammar.c"
     break;
 
+  case 63: /* hex_modifiers: %empty  */
+#line 916 "libyara/grammar.y"
+                                          { (yyval.modifier).flags = 0; }
+#line 2855 "libyara/grammar.c"
+    break;
+
   case 64: /* hex_modifiers: hex_modifiers hex_modifier  */
-#line 912 "libyara/grammar.y"
+#line 918 "libyara/grammar.y"
       {
         if ((yyvsp[-1].modifier).flags & (yyvsp[0].modifier).flags)
         {
@@ -2860,17 +2866,17 @@ yyreduce:
           (yyval.modifier).flags = (yyvsp[-1].modifier).flags | (yyvsp[0].modifier).flags;
         }
       }
-#line 2864 "libyara/grammar.c"
-    break;
-
-  case 65: /* hex_modifier: "<private>"  */
-#line 925 "libyara/grammar.y"
-                    { (yyval.modifier).flags = STRING_FLAGS_PRIVATE; }
 #line 2870 "libyara/grammar.c"
     break;
 
+  case 65: /* hex_modifier: "<private>"  */
+#line 931 "libyara/grammar.y"
+                    { (yyval.modifier).flags = STRING_FLAGS_PRIVATE; }
+#line 2876 "libyara/grammar.c"
+    break;
+
   case 66: /* identifier: "identifier"  */
-#line 930 "libyara/grammar.y"
+#line 936 "libyara/grammar.y"
       {
         YR_EXPRESSION expr;
 
@@ -2966,11 +2972,11 @@ yyreduce:
 
         fail_if_error(result);
       }
-#line 2970 "libyara/grammar.c"
+#line 2976 "libyara/grammar.c"
     break;
 
   case 67: /* identifier: identifier '.' "identifier"  */
-#line 1026 "libyara/grammar.y"
+#line 1032 "libyara/grammar.y"
       {
         int result = ERROR_SUCCESS;
         YR_OBJECT* field = NULL;
@@ -3018,11 +3024,11 @@ yyreduce:
 
         fail_if_error(result);
       }
-#line 3022 "libyara/grammar.c"
+#line 3028 "libyara/grammar.c"
     break;
 
   case 68: /* identifier: identifier '[' primary_expression ']'  */
-#line 1074 "libyara/grammar.y"
+#line 1080 "libyara/grammar.y"
       {
         int result = ERROR_SUCCESS;
         YR_OBJECT_ARRAY* array;
@@ -3082,11 +3088,11 @@ yyreduce:
 
         fail_if_error(result);
       }
-#line 3086 "libyara/grammar.c"
+#line 3092 "libyara/grammar.c"
     break;
 
   case 69: /* identifier: identifier '(' arguments ')'  */
-#line 1135 "libyara/grammar.y"
+#line 1141 "libyara/grammar.y"
       {
         YR_ARENA_REF ref = YR_ARENA_NULL_REF;
         int result = ERROR_SUCCESS;
@@ -3127,23 +3133,23 @@ yyreduce:
 
         fail_if_error(result);
       }
-#line 3131 "libyara/grammar.c"
-    break;
-
-  case 70: /* arguments: %empty  */
-#line 1179 "libyara/grammar.y"
-                      { (yyval.c_string) = yr_strdup(""); }
 #line 3137 "libyara/grammar.c"
     break;
 
-  case 71: /* arguments: arguments_list  */
-#line 1180 "libyara/grammar.y"
-                      { (yyval.c_string) = (yyvsp[0].c_string); }
+  case 70: /* arguments: %empty  */
+#line 1185 "libyara/grammar.y"
+                      { (yyval.c_string) = yr_strdup(""); }
 #line 3143 "libyara/grammar.c"
     break;
 
+  case 71: /* arguments: arguments_list  */
+#line 1186 "libyara/grammar.y"
+                      { (yyval.c_string) = (yyvsp[0].c_string); }
+#line 3149 "libyara/grammar.c"
+    break;
+
   case 72: /* arguments_list: expression  */
-#line 1185 "libyara/grammar.y"
+#line 1191 "libyara/grammar.y"
       {
         (yyval.c_string) = (char*) yr_malloc(YR_MAX_FUNCTION_ARGS + 1);
 
@@ -3178,11 +3184,11 @@ yyreduce:
             assert(compiler->last_error != ERROR_SUCCESS);
         }
       }
-#line 3182 "libyara/grammar.c"
+#line 3188 "libyara/grammar.c"
     break;
 
   case 73: /* arguments_list: arguments_list ',' expression  */
-#line 1220 "libyara/grammar.y"
+#line 1226 "libyara/grammar.y"
       {
         int result = ERROR_SUCCESS;
 
@@ -3231,11 +3237,11 @@ yyreduce:
 
         (yyval.c_string) = (yyvsp[-2].c_string);
       }
-#line 3235 "libyara/grammar.c"
+#line 3241 "libyara/grammar.c"
     break;
 
   case 74: /* regexp: "regular expression"  */
-#line 1273 "libyara/grammar.y"
+#line 1279 "libyara/grammar.y"
       {
         YR_ARENA_REF re_ref;
         RE_ERROR error;
@@ -3286,11 +3292,11 @@ yyreduce:
 
         (yyval.expression).type = EXPRESSION_TYPE_REGEXP;
       }
-#line 3290 "libyara/grammar.c"
+#line 3296 "libyara/grammar.c"
     break;
 
   case 75: /* boolean_expression: expression  */
-#line 1328 "libyara/grammar.y"
+#line 1334 "libyara/grammar.y"
       {
         if ((yyvsp[0].expression).type == EXPRESSION_TYPE_STRING)
         {
@@ -3318,33 +3324,33 @@ yyreduce:
 
         (yyval.expression).type = EXPRESSION_TYPE_BOOLEAN;
       }
-#line 3322 "libyara/grammar.c"
+#line 3328 "libyara/grammar.c"
     break;
 
   case 76: /* expression: "<true>"  */
-#line 1359 "libyara/grammar.y"
+#line 1365 "libyara/grammar.y"
       {
         fail_if_error(yr_parser_emit_push_const(yyscanner, 1));
 
         (yyval.expression).type = EXPRESSION_TYPE_BOOLEAN;
         (yyval.expression).required_strings.count = 0;
       }
-#line 3333 "libyara/grammar.c"
+#line 3339 "libyara/grammar.c"
     break;
 
   case 77: /* expression: "<false>"  */
-#line 1366 "libyara/grammar.y"
+#line 1372 "libyara/grammar.y"
       {
         fail_if_error(yr_parser_emit_push_const(yyscanner, 0));
 
         (yyval.expression).type = EXPRESSION_TYPE_BOOLEAN;
         (yyval.expression).required_strings.count = 0;
       }
-#line 3344 "libyara/grammar.c"
+#line 3350 "libyara/grammar.c"
     break;
 
   case 78: /* expression: primary_expression "<matches>" regexp  */
-#line 1373 "libyara/grammar.y"
+#line 1379 "libyara/grammar.y"
       {
         check_type((yyvsp[-2].expression), EXPRESSION_TYPE_STRING, "matches");
         check_type((yyvsp[0].expression), EXPRESSION_TYPE_REGEXP, "matches");
@@ -3357,11 +3363,11 @@ yyreduce:
         (yyval.expression).type = EXPRESSION_TYPE_BOOLEAN;
         (yyval.expression).required_strings.count = 0;
       }
-#line 3361 "libyara/grammar.c"
+#line 3367 "libyara/grammar.c"
     break;
 
   case 79: /* expression: primary_expression "<contains>" primary_expression  */
-#line 1386 "libyara/grammar.y"
+#line 1392 "libyara/grammar.y"
       {
         check_type((yyvsp[-2].expression), EXPRESSION_TYPE_STRING, "contains");
         check_type((yyvsp[0].expression), EXPRESSION_TYPE_STRING, "contains");
@@ -3372,11 +3378,11 @@ yyreduce:
         (yyval.expression).type = EXPRESSION_TYPE_BOOLEAN;
         (yyval.expression).required_strings.count = 0;
       }
-#line 3376 "libyara/grammar.c"
+#line 3382 "libyara/grammar.c"
     break;
 
   case 80: /* expression: primary_expression "<icontains>" primary_expression  */
-#line 1397 "libyara/grammar.y"
+#line 1403 "libyara/grammar.y"
       {
         check_type((yyvsp[-2].expression), EXPRESSION_TYPE_STRING, "icontains");
         check_type((yyvsp[0].expression), EXPRESSION_TYPE_STRING, "icontains");
@@ -3387,11 +3393,11 @@ yyreduce:
         (yyval.expression).type = EXPRESSION_TYPE_BOOLEAN;
         (yyval.expression).required_strings.count = 0;
       }
-#line 3391 "libyara/grammar.c"
+#line 3397 "libyara/grammar.c"
     break;
 
   case 81: /* expression: primary_expression "<startswith>" primary_expression  */
-#line 1408 "libyara/grammar.y"
+#line 1414 "libyara/grammar.y"
       {
         check_type((yyvsp[-2].expression), EXPRESSION_TYPE_STRING, "startswith");
         check_type((yyvsp[0].expression), EXPRESSION_TYPE_STRING, "startswith");
@@ -3402,11 +3408,11 @@ yyreduce:
         (yyval.expression).type = EXPRESSION_TYPE_BOOLEAN;
         (yyval.expression).required_strings.count = 0;
       }
-#line 3406 "libyara/grammar.c"
+#line 3412 "libyara/grammar.c"
     break;
 
   case 82: /* expression: primary_expression "<istartswith>" primary_expression  */
-#line 1419 "libyara/grammar.y"
+#line 1425 "libyara/grammar.y"
       {
         check_type((yyvsp[-2].expression), EXPRESSION_TYPE_STRING, "istartswith");
         check_type((yyvsp[0].expression), EXPRESSION_TYPE_STRING, "istartswith");
@@ -3417,11 +3423,11 @@ yyreduce:
         (yyval.expression).type = EXPRESSION_TYPE_BOOLEAN;
         (yyval.expression).required_strings.count = 0;
       }
-#line 3421 "libyara/grammar.c"
+#line 3427 "libyara/grammar.c"
     break;
 
   case 83: /* expression: primary_expression "<endswith>" primary_expression  */
-#line 1430 "libyara/grammar.y"
+#line 1436 "libyara/grammar.y"
       {
         check_type((yyvsp[-2].expression), EXPRESSION_TYPE_STRING, "endswith");
         check_type((yyvsp[0].expression), EXPRESSION_TYPE_STRING, "endswith");
@@ -3432,11 +3438,11 @@ yyreduce:
         (yyval.expression).type = EXPRESSION_TYPE_BOOLEAN;
         (yyval.expression).required_strings.count = 0;
       }
-#line 3436 "libyara/grammar.c"
+#line 3442 "libyara/grammar.c"
     break;
 
   case 84: /* expression: primary_expression "<iendswith>" primary_expression  */
-#line 1441 "libyara/grammar.y"
+#line 1447 "libyara/grammar.y"
       {
         check_type((yyvsp[-2].expression), EXPRESSION_TYPE_STRING, "iendswith");
         check_type((yyvsp[0].expression), EXPRESSION_TYPE_STRING, "iendswith");
@@ -3447,11 +3453,11 @@ yyreduce:
         (yyval.expression).type = EXPRESSION_TYPE_BOOLEAN;
         (yyval.expression).required_strings.count = 0;
       }
-#line 3451 "libyara/grammar.c"
+#line 3457 "libyara/grammar.c"
     break;
 
   case 85: /* expression: primary_expression "<iequals>" primary_expression  */
-#line 1452 "libyara/grammar.y"
+#line 1458 "libyara/grammar.y"
       {
         check_type((yyvsp[-2].expression), EXPRESSION_TYPE_STRING, "iequals");
         check_type((yyvsp[0].expression), EXPRESSION_TYPE_STRING, "iequals");
@@ -3462,11 +3468,11 @@ yyreduce:
         (yyval.expression).type = EXPRESSION_TYPE_BOOLEAN;
         (yyval.expression).required_strings.count = 0;
       }
-#line 3466 "libyara/grammar.c"
+#line 3472 "libyara/grammar.c"
     break;
 
   case 86: /* expression: "string identifier"  */
-#line 1463 "libyara/grammar.y"
+#line 1469 "libyara/grammar.y"
       {
         int result = yr_parser_reduce_string_identifier(
             yyscanner,
@@ -3481,11 +3487,11 @@ yyreduce:
         (yyval.expression).type = EXPRESSION_TYPE_BOOLEAN;
         (yyval.expression).required_strings.count = 1;
       }
-#line 3485 "libyara/grammar.c"
+#line 3491 "libyara/grammar.c"
     break;
 
   case 87: /* expression: "string identifier" "<at>" primary_expression  */
-#line 1478 "libyara/grammar.y"
+#line 1484 "libyara/grammar.y"
       {
         int result;
 
@@ -3501,11 +3507,11 @@ yyreduce:
         (yyval.expression).required_strings.count = 1;
         (yyval.expression).type = EXPRESSION_TYPE_BOOLEAN;
       }
-#line 3505 "libyara/grammar.c"
+#line 3511 "libyara/grammar.c"
     break;
 
   case 88: /* expression: "string identifier" "<in>" range  */
-#line 1494 "libyara/grammar.y"
+#line 1500 "libyara/grammar.y"
       {
         int result = yr_parser_reduce_string_identifier(
             yyscanner, (yyvsp[-2].c_string), OP_FOUND_IN, YR_UNDEFINED);
@@ -3517,11 +3523,11 @@ yyreduce:
         (yyval.expression).required_strings.count = 1;
         (yyval.expression).type = EXPRESSION_TYPE_BOOLEAN;
       }
-#line 3521 "libyara/grammar.c"
+#line 3527 "libyara/grammar.c"
     break;
 
   case 89: /* expression: "<for>" for_expression error  */
-#line 1506 "libyara/grammar.y"
+#line 1512 "libyara/grammar.y"
       {
         // Free all the loop variable identifiers, including the variables for
         // the current loop (represented by loop_index), and set loop_index to
@@ -3538,11 +3544,11 @@ yyreduce:
         compiler->loop_index = -1;
         YYERROR;
       }
-#line 3542 "libyara/grammar.c"
+#line 3548 "libyara/grammar.c"
     break;
 
   case 90: /* $@6: %empty  */
-#line 1580 "libyara/grammar.y"
+#line 1586 "libyara/grammar.y"
       {
         // var_frame is used for accessing local variables used in this loop.
         // All local variables are accessed using var_frame as a reference,
@@ -3580,11 +3586,11 @@ yyreduce:
         fail_if_error(yr_parser_emit_with_arg(
             yyscanner, OP_POP_M, var_frame + 2, NULL, NULL));
       }
-#line 3584 "libyara/grammar.c"
+#line 3590 "libyara/grammar.c"
     break;
 
   case 91: /* $@7: %empty  */
-#line 1618 "libyara/grammar.y"
+#line 1624 "libyara/grammar.y"
       {
         YR_LOOP_CONTEXT* loop_ctx = &compiler->loop[compiler->loop_index];
         YR_FIXUP* fixup;
@@ -3633,11 +3639,11 @@ yyreduce:
 
         loop_ctx->start_ref = loop_start_ref;
       }
-#line 3637 "libyara/grammar.c"
+#line 3643 "libyara/grammar.c"
     break;
 
   case 92: /* expression: "<for>" for_expression $@6 for_iteration ':' $@7 '(' boolean_expression ')'  */
-#line 1667 "libyara/grammar.y"
+#line 1673 "libyara/grammar.y"
       {
         int32_t jmp_offset;
         YR_FIXUP* fixup;
@@ -3718,11 +3724,11 @@ yyreduce:
         (yyval.expression).type = EXPRESSION_TYPE_BOOLEAN;
         (yyval.expression).required_strings.count = 0;
       }
-#line 3722 "libyara/grammar.c"
+#line 3728 "libyara/grammar.c"
     break;
 
   case 93: /* expression: for_expression "<of>" string_set  */
-#line 1748 "libyara/grammar.y"
+#line 1754 "libyara/grammar.y"
       {
         if ((yyvsp[-2].expression).type == EXPRESSION_TYPE_INTEGER && (yyvsp[-2].expression).value.integer > (yyvsp[0].integer))
         {
@@ -3745,11 +3751,11 @@ yyreduce:
 
         (yyval.expression).type = EXPRESSION_TYPE_BOOLEAN;
       }
-#line 3749 "libyara/grammar.c"
+#line 3755 "libyara/grammar.c"
     break;
 
   case 94: /* expression: for_expression "<of>" rule_set  */
-#line 1771 "libyara/grammar.y"
+#line 1777 "libyara/grammar.y"
       {
         if ((yyvsp[-2].expression).type == EXPRESSION_TYPE_INTEGER && (yyvsp[-2].expression).value.integer > (yyvsp[0].integer))
         {
@@ -3761,11 +3767,11 @@ yyreduce:
         (yyval.expression).type = EXPRESSION_TYPE_BOOLEAN;
         (yyval.expression).required_strings.count = 0;
       }
-#line 3765 "libyara/grammar.c"
+#line 3771 "libyara/grammar.c"
     break;
 
   case 95: /* expression: primary_expression '%' "<of>" string_set  */
-#line 1783 "libyara/grammar.y"
+#line 1789 "libyara/grammar.y"
       {
         check_type((yyvsp[-3].expression), EXPRESSION_TYPE_INTEGER, "%");
 
@@ -3793,11 +3799,11 @@ yyreduce:
 
         yr_parser_emit_with_arg(yyscanner, OP_OF_PERCENT, OF_STRING_SET, NULL, NULL);
       }
-#line 3797 "libyara/grammar.c"
+#line 3803 "libyara/grammar.c"
     break;
 
   case 96: /* expression: primary_expression '%' "<of>" rule_set  */
-#line 1811 "libyara/grammar.y"
+#line 1817 "libyara/grammar.y"
       {
         check_type((yyvsp[-3].expression), EXPRESSION_TYPE_INTEGER, "%");
 
@@ -3816,11 +3822,11 @@ yyreduce:
 
         yr_parser_emit_with_arg(yyscanner, OP_OF_PERCENT, OF_RULE_SET, NULL, NULL);
       }
-#line 3820 "libyara/grammar.c"
+#line 3826 "libyara/grammar.c"
     break;
 
   case 97: /* expression: for_expression "<of>" string_set "<in>" range  */
-#line 1830 "libyara/grammar.y"
+#line 1836 "libyara/grammar.y"
       {
         if ((yyvsp[-4].expression).type == EXPRESSION_TYPE_INTEGER && (yyvsp[-4].expression).value.integer > (yyvsp[-2].integer))
         {
@@ -3843,11 +3849,11 @@ yyreduce:
 
         (yyval.expression).type = EXPRESSION_TYPE_BOOLEAN;
       }
-#line 3847 "libyara/grammar.c"
+#line 3853 "libyara/grammar.c"
     break;
 
   case 98: /* expression: for_expression "<of>" string_set "<at>" primary_expression  */
-#line 1853 "libyara/grammar.y"
+#line 1859 "libyara/grammar.y"
       {
         if ((yyvsp[0].expression).type != EXPRESSION_TYPE_INTEGER)
         {
@@ -3895,32 +3901,32 @@ yyreduce:
 
         (yyval.expression).type = EXPRESSION_TYPE_BOOLEAN;
       }
-#line 3899 "libyara/grammar.c"
+#line 3905 "libyara/grammar.c"
     break;
 
   case 99: /* expression: "<not>" boolean_expression  */
-#line 1901 "libyara/grammar.y"
+#line 1907 "libyara/grammar.y"
       {
         yr_parser_emit(yyscanner, OP_NOT, NULL);
 
         (yyval.expression).type = EXPRESSION_TYPE_BOOLEAN;
         (yyval.expression).required_strings.count = 0;
       }
-#line 3910 "libyara/grammar.c"
+#line 3916 "libyara/grammar.c"
     break;
 
   case 100: /* expression: "<defined>" boolean_expression  */
-#line 1908 "libyara/grammar.y"
+#line 1914 "libyara/grammar.y"
       {
         yr_parser_emit(yyscanner, OP_DEFINED, NULL);
         (yyval.expression).type = EXPRESSION_TYPE_BOOLEAN;
         (yyval.expression).required_strings.count = 0;
       }
-#line 3920 "libyara/grammar.c"
+#line 3926 "libyara/grammar.c"
     break;
 
   case 101: /* $@8: %empty  */
-#line 1914 "libyara/grammar.y"
+#line 1920 "libyara/grammar.y"
       {
         YR_FIXUP* fixup;
         YR_ARENA_REF jmp_offset_ref;
@@ -3942,11 +3948,11 @@ yyreduce:
         fixup->next = compiler->fixup_stack_head;
         compiler->fixup_stack_head = fixup;
       }
-#line 3946 "libyara/grammar.c"
+#line 3952 "libyara/grammar.c"
     break;
 
   case 102: /* expression: boolean_expression "<and>" $@8 boolean_expression  */
-#line 1936 "libyara/grammar.y"
+#line 1942 "libyara/grammar.y"
       {
         YR_FIXUP* fixup;
 
@@ -3970,11 +3976,11 @@ yyreduce:
         (yyval.expression).type = EXPRESSION_TYPE_BOOLEAN;
         (yyval.expression).required_strings.count = (yyvsp[0].expression).required_strings.count + (yyvsp[-3].expression).required_strings.count;
       }
-#line 3974 "libyara/grammar.c"
+#line 3980 "libyara/grammar.c"
     break;
 
   case 103: /* $@9: %empty  */
-#line 1960 "libyara/grammar.y"
+#line 1966 "libyara/grammar.y"
       {
         YR_FIXUP* fixup;
         YR_ARENA_REF jmp_offset_ref;
@@ -3995,11 +4001,11 @@ yyreduce:
         fixup->next = compiler->fixup_stack_head;
         compiler->fixup_stack_head = fixup;
       }
-#line 3999 "libyara/grammar.c"
+#line 4005 "libyara/grammar.c"
     break;
 
   case 104: /* expression: boolean_expression "<or>" $@9 boolean_expression  */
-#line 1981 "libyara/grammar.y"
+#line 1987 "libyara/grammar.y"
       {
         YR_FIXUP* fixup;
 
@@ -4029,11 +4035,11 @@ yyreduce:
           (yyval.expression).required_strings.count = (yyvsp[-3].expression).required_strings.count;
         }
       }
-#line 4033 "libyara/grammar.c"
+#line 4039 "libyara/grammar.c"
     break;
 
   case 105: /* expression: primary_expression "<" primary_expression  */
-#line 2011 "libyara/grammar.y"
+#line 2017 "libyara/grammar.y"
       {
         fail_if_error(yr_parser_reduce_operation(
             yyscanner, "<", (yyvsp[-2].expression), (yyvsp[0].expression)));
@@ -4041,11 +4047,11 @@ yyreduce:
         (yyval.expression).type = EXPRESSION_TYPE_BOOLEAN;
         (yyval.expression).required_strings.count = 0;
       }
-#line 4045 "libyara/grammar.c"
+#line 4051 "libyara/grammar.c"
     break;
 
   case 106: /* expression: primary_expression ">" primary_expression  */
-#line 2019 "libyara/grammar.y"
+#line 2025 "libyara/grammar.y"
       {
         fail_if_error(yr_parser_reduce_operation(
             yyscanner, ">", (yyvsp[-2].expression), (yyvsp[0].expression)));
@@ -4053,11 +4059,11 @@ yyreduce:
         (yyval.expression).type = EXPRESSION_TYPE_BOOLEAN;
         (yyval.expression).required_strings.count = 0;
       }
-#line 4057 "libyara/grammar.c"
+#line 4063 "libyara/grammar.c"
     break;
 
   case 107: /* expression: primary_expression "<=" primary_expression  */
-#line 2027 "libyara/grammar.y"
+#line 2033 "libyara/grammar.y"
       {
         fail_if_error(yr_parser_reduce_operation(
             yyscanner, "<=", (yyvsp[-2].expression), (yyvsp[0].expression)));
@@ -4065,11 +4071,11 @@ yyreduce:
         (yyval.expression).type = EXPRESSION_TYPE_BOOLEAN;
         (yyval.expression).required_strings.count = 0;
       }
-#line 4069 "libyara/grammar.c"
+#line 4075 "libyara/grammar.c"
     break;
 
   case 108: /* expression: primary_expression ">=" primary_expression  */
-#line 2035 "libyara/grammar.y"
+#line 2041 "libyara/grammar.y"
       {
         fail_if_error(yr_parser_reduce_operation(
             yyscanner, ">=", (yyvsp[-2].expression), (yyvsp[0].expression)));
@@ -4077,11 +4083,11 @@ yyreduce:
         (yyval.expression).type = EXPRESSION_TYPE_BOOLEAN;
         (yyval.expression).required_strings.count = 0;
       }
-#line 4081 "libyara/grammar.c"
+#line 4087 "libyara/grammar.c"
     break;
 
   case 109: /* expression: primary_expression "==" primary_expression  */
-#line 2043 "libyara/grammar.y"
+#line 2049 "libyara/grammar.y"
       {
         fail_if_error(yr_parser_reduce_operation(
             yyscanner, "==", (yyvsp[-2].expression), (yyvsp[0].expression)));
@@ -4089,11 +4095,11 @@ yyreduce:
         (yyval.expression).type = EXPRESSION_TYPE_BOOLEAN;
         (yyval.expression).required_strings.count = 0;
       }
-#line 4093 "libyara/grammar.c"
+#line 4099 "libyara/grammar.c"
     break;
 
   case 110: /* expression: primary_expression "!=" primary_expression  */
-#line 2051 "libyara/grammar.y"
+#line 2057 "libyara/grammar.y"
       {
         fail_if_error(yr_parser_reduce_operation(
             yyscanner, "!=", (yyvsp[-2].expression), (yyvsp[0].expression)));
@@ -4101,33 +4107,33 @@ yyreduce:
         (yyval.expression).type = EXPRESSION_TYPE_BOOLEAN;
         (yyval.expression).required_strings.count = 0;
       }
-#line 4105 "libyara/grammar.c"
+#line 4111 "libyara/grammar.c"
     break;
 
   case 111: /* expression: primary_expression  */
-#line 2059 "libyara/grammar.y"
+#line 2065 "libyara/grammar.y"
       {
         (yyval.expression) = (yyvsp[0].expression);
       }
-#line 4113 "libyara/grammar.c"
+#line 4119 "libyara/grammar.c"
     break;
 
   case 112: /* expression: '(' expression ')'  */
-#line 2063 "libyara/grammar.y"
+#line 2069 "libyara/grammar.y"
       {
         (yyval.expression) = (yyvsp[-1].expression);
       }
-#line 4121 "libyara/grammar.c"
-    break;
-
-  case 113: /* for_iteration: for_variables "<in>" iterator  */
-#line 2070 "libyara/grammar.y"
-                                  { (yyval.integer) = FOR_ITERATION_ITERATOR; }
 #line 4127 "libyara/grammar.c"
     break;
 
+  case 113: /* for_iteration: for_variables "<in>" iterator  */
+#line 2076 "libyara/grammar.y"
+                                  { (yyval.integer) = FOR_ITERATION_ITERATOR; }
+#line 4133 "libyara/grammar.c"
+    break;
+
   case 114: /* for_iteration: "<of>" string_iterator  */
-#line 2072 "libyara/grammar.y"
+#line 2078 "libyara/grammar.y"
       {
         int var_frame;
         int result = ERROR_SUCCESS;
@@ -4148,11 +4154,11 @@ yyreduce:
 
         (yyval.integer) = FOR_ITERATION_STRING_SET;
       }
-#line 4152 "libyara/grammar.c"
+#line 4158 "libyara/grammar.c"
     break;
 
   case 115: /* for_variables: "identifier"  */
-#line 2097 "libyara/grammar.y"
+#line 2103 "libyara/grammar.y"
       {
         int result = ERROR_SUCCESS;
 
@@ -4172,11 +4178,11 @@ yyreduce:
 
         assert(loop_ctx->vars_count <= YR_MAX_LOOP_VARS);
       }
-#line 4176 "libyara/grammar.c"
+#line 4182 "libyara/grammar.c"
     break;
 
   case 116: /* for_variables: for_variables ',' "identifier"  */
-#line 2117 "libyara/grammar.y"
+#line 2123 "libyara/grammar.y"
       {
         int result = ERROR_SUCCESS;
 
@@ -4201,11 +4207,11 @@ yyreduce:
 
         loop_ctx->vars[loop_ctx->vars_count++].identifier.ptr = (yyvsp[0].c_string);
       }
-#line 4205 "libyara/grammar.c"
+#line 4211 "libyara/grammar.c"
     break;
 
   case 117: /* iterator: identifier  */
-#line 2145 "libyara/grammar.y"
+#line 2151 "libyara/grammar.y"
       {
         YR_LOOP_CONTEXT* loop_ctx = &compiler->loop[compiler->loop_index];
 
@@ -4279,11 +4285,11 @@ yyreduce:
 
         fail_if_error(result);
       }
-#line 4283 "libyara/grammar.c"
+#line 4289 "libyara/grammar.c"
     break;
 
   case 118: /* iterator: set  */
-#line 2219 "libyara/grammar.y"
+#line 2225 "libyara/grammar.y"
       {
         int result = ERROR_SUCCESS;
 
@@ -4311,11 +4317,11 @@ yyreduce:
 
         fail_if_error(result);
       }
-#line 4315 "libyara/grammar.c"
+#line 4321 "libyara/grammar.c"
     break;
 
   case 119: /* set: '(' enumeration ')'  */
-#line 2251 "libyara/grammar.y"
+#line 2257 "libyara/grammar.y"
       {
         // $2.count contains the number of items in the enumeration
         fail_if_error(yr_parser_emit_push_const(yyscanner, (yyvsp[-1].enumeration).count));
@@ -4333,22 +4339,22 @@ yyreduce:
 
         (yyval.enumeration).type = (yyvsp[-1].enumeration).type;
       }
-#line 4337 "libyara/grammar.c"
+#line 4343 "libyara/grammar.c"
     break;
 
   case 120: /* set: range  */
-#line 2269 "libyara/grammar.y"
+#line 2275 "libyara/grammar.y"
       {
         fail_if_error(yr_parser_emit(
             yyscanner, OP_ITER_START_INT_RANGE, NULL));
 
         (yyval.enumeration).type = EXPRESSION_TYPE_INTEGER;
       }
-#line 4348 "libyara/grammar.c"
+#line 4354 "libyara/grammar.c"
     break;
 
   case 121: /* range: '(' primary_expression ".." primary_expression ')'  */
-#line 2280 "libyara/grammar.y"
+#line 2286 "libyara/grammar.y"
       {
         int result = ERROR_SUCCESS;
 
@@ -4387,11 +4393,11 @@ yyreduce:
 
         fail_if_error(result);
       }
-#line 4391 "libyara/grammar.c"
+#line 4397 "libyara/grammar.c"
     break;
 
   case 122: /* enumeration: primary_expression  */
-#line 2323 "libyara/grammar.y"
+#line 2329 "libyara/grammar.y"
       {
         int result = ERROR_SUCCESS;
 
@@ -4407,11 +4413,11 @@ yyreduce:
         (yyval.enumeration).type = (yyvsp[0].expression).type;
         (yyval.enumeration).count = 1;
       }
-#line 4411 "libyara/grammar.c"
+#line 4417 "libyara/grammar.c"
     break;
 
   case 123: /* enumeration: enumeration ',' primary_expression  */
-#line 2339 "libyara/grammar.y"
+#line 2345 "libyara/grammar.y"
       {
         int result = ERROR_SUCCESS;
 
@@ -4427,38 +4433,38 @@ yyreduce:
         (yyval.enumeration).type = (yyvsp[-2].enumeration).type;
         (yyval.enumeration).count = (yyvsp[-2].enumeration).count + 1;
       }
-#line 4431 "libyara/grammar.c"
+#line 4437 "libyara/grammar.c"
     break;
 
   case 124: /* string_iterator: string_set  */
-#line 2359 "libyara/grammar.y"
+#line 2365 "libyara/grammar.y"
       {
         fail_if_error(yr_parser_emit_push_const(yyscanner, (yyvsp[0].integer)));
         fail_if_error(yr_parser_emit(yyscanner, OP_ITER_START_STRING_SET,
             NULL));
       }
-#line 4441 "libyara/grammar.c"
+#line 4447 "libyara/grammar.c"
     break;
 
   case 125: /* $@10: %empty  */
-#line 2368 "libyara/grammar.y"
+#line 2374 "libyara/grammar.y"
       {
         // Push end-of-list marker
         yr_parser_emit_push_const(yyscanner, YR_UNDEFINED);
       }
-#line 4450 "libyara/grammar.c"
+#line 4456 "libyara/grammar.c"
     break;
 
   case 126: /* string_set: '(' $@10 string_enumeration ')'  */
-#line 2373 "libyara/grammar.y"
+#line 2379 "libyara/grammar.y"
       {
         (yyval.integer) = (yyvsp[-1].integer);
       }
-#line 4458 "libyara/grammar.c"
+#line 4464 "libyara/grammar.c"
     break;
 
   case 127: /* string_set: "<them>"  */
-#line 2377 "libyara/grammar.y"
+#line 2383 "libyara/grammar.y"
       {
         fail_if_error(yr_parser_emit_push_const(yyscanner, YR_UNDEFINED));
 
@@ -4468,23 +4474,23 @@ yyreduce:
 
         (yyval.integer) = count;
       }
-#line 4472 "libyara/grammar.c"
-    break;
-
-  case 128: /* string_enumeration: string_enumeration_item  */
-#line 2390 "libyara/grammar.y"
-                              { (yyval.integer) = (yyvsp[0].integer); }
 #line 4478 "libyara/grammar.c"
     break;
 
-  case 129: /* string_enumeration: string_enumeration ',' string_enumeration_item  */
-#line 2391 "libyara/grammar.y"
-                                                     { (yyval.integer) = (yyvsp[-2].integer) + (yyvsp[0].integer); }
+  case 128: /* string_enumeration: string_enumeration_item  */
+#line 2396 "libyara/grammar.y"
+                              { (yyval.integer) = (yyvsp[0].integer); }
 #line 4484 "libyara/grammar.c"
     break;
 
-  case 130: /* string_enumeration_item: "string identifier"  */
+  case 129: /* string_enumeration: string_enumeration ',' string_enumeration_item  */
 #line 2397 "libyara/grammar.y"
+                                                     { (yyval.integer) = (yyvsp[-2].integer) + (yyvsp[0].integer); }
+#line 4490 "libyara/grammar.c"
+    break;
+
+  case 130: /* string_enumeration_item: "string identifier"  */
+#line 2403 "libyara/grammar.y"
       {
         int count = 0;
         int result = yr_parser_emit_pushes_for_strings(yyscanner, (yyvsp[0].c_string), &count);
@@ -4494,11 +4500,11 @@ yyreduce:
 
         (yyval.integer) = count;
       }
-#line 4498 "libyara/grammar.c"
+#line 4504 "libyara/grammar.c"
     break;
 
   case 131: /* string_enumeration_item: "string identifier with wildcard"  */
-#line 2407 "libyara/grammar.y"
+#line 2413 "libyara/grammar.y"
       {
         int count = 0;
         int result = yr_parser_emit_pushes_for_strings(yyscanner, (yyvsp[0].c_string), &count);
@@ -4508,40 +4514,40 @@ yyreduce:
 
         (yyval.integer) = count;
       }
-#line 4512 "libyara/grammar.c"
+#line 4518 "libyara/grammar.c"
     break;
 
   case 132: /* $@11: %empty  */
-#line 2421 "libyara/grammar.y"
+#line 2427 "libyara/grammar.y"
       {
         // Push end-of-list marker
         yr_parser_emit_push_const(yyscanner, YR_UNDEFINED);
       }
-#line 4521 "libyara/grammar.c"
+#line 4527 "libyara/grammar.c"
     break;
 
   case 133: /* rule_set: '(' $@11 rule_enumeration ')'  */
-#line 2426 "libyara/grammar.y"
+#line 2432 "libyara/grammar.y"
       {
         (yyval.integer) = (yyvsp[-1].integer);
       }
-#line 4529 "libyara/grammar.c"
-    break;
-
-  case 134: /* rule_enumeration: rule_enumeration_item  */
-#line 2433 "libyara/grammar.y"
-                            { (yyval.integer) = (yyvsp[0].integer); }
 #line 4535 "libyara/grammar.c"
     break;
 
-  case 135: /* rule_enumeration: rule_enumeration ',' rule_enumeration_item  */
-#line 2434 "libyara/grammar.y"
-                                                 { (yyval.integer) = (yyvsp[-2].integer) + (yyvsp[0].integer); }
+  case 134: /* rule_enumeration: rule_enumeration_item  */
+#line 2439 "libyara/grammar.y"
+                            { (yyval.integer) = (yyvsp[0].integer); }
 #line 4541 "libyara/grammar.c"
     break;
 
-  case 136: /* rule_enumeration_item: "identifier"  */
+  case 135: /* rule_enumeration: rule_enumeration ',' rule_enumeration_item  */
 #line 2440 "libyara/grammar.y"
+                                                 { (yyval.integer) = (yyvsp[-2].integer) + (yyvsp[0].integer); }
+#line 4547 "libyara/grammar.c"
+    break;
+
+  case 136: /* rule_enumeration_item: "identifier"  */
+#line 2446 "libyara/grammar.y"
       {
         int result = ERROR_SUCCESS;
 
@@ -4574,11 +4580,11 @@ yyreduce:
 
         (yyval.integer) = 1;
       }
-#line 4578 "libyara/grammar.c"
+#line 4584 "libyara/grammar.c"
     break;
 
   case 137: /* rule_enumeration_item: "identifier" '*'  */
-#line 2473 "libyara/grammar.y"
+#line 2479 "libyara/grammar.y"
       {
         int count = 0;
         YR_NAMESPACE* ns = (YR_NAMESPACE*) yr_arena_get_ptr(
@@ -4599,11 +4605,11 @@ yyreduce:
 
         (yyval.integer) = count;
       }
-#line 4603 "libyara/grammar.c"
+#line 4609 "libyara/grammar.c"
     break;
 
   case 138: /* for_expression: primary_expression  */
-#line 2498 "libyara/grammar.y"
+#line 2504 "libyara/grammar.y"
       {
         if ((yyvsp[0].expression).type == EXPRESSION_TYPE_INTEGER && !IS_UNDEFINED((yyvsp[0].expression).value.integer))
         {
@@ -4659,57 +4665,57 @@ yyreduce:
 
         (yyval.expression).value.integer = (yyvsp[0].expression).value.integer;
       }
-#line 4663 "libyara/grammar.c"
+#line 4669 "libyara/grammar.c"
     break;
 
   case 139: /* for_expression: for_quantifier  */
-#line 2554 "libyara/grammar.y"
+#line 2560 "libyara/grammar.y"
       {
         (yyval.expression).value.integer = (yyvsp[0].expression).value.integer;
       }
-#line 4671 "libyara/grammar.c"
+#line 4677 "libyara/grammar.c"
     break;
 
   case 140: /* for_quantifier: "<all>"  */
-#line 2561 "libyara/grammar.y"
+#line 2567 "libyara/grammar.y"
       {
         yr_parser_emit_push_const(yyscanner, YR_UNDEFINED);
         (yyval.expression).type = EXPRESSION_TYPE_QUANTIFIER;
         (yyval.expression).value.integer = FOR_EXPRESSION_ALL;
      }
-#line 4681 "libyara/grammar.c"
+#line 4687 "libyara/grammar.c"
     break;
 
   case 141: /* for_quantifier: "<any>"  */
-#line 2567 "libyara/grammar.y"
+#line 2573 "libyara/grammar.y"
       {
         yr_parser_emit_push_const(yyscanner, 1);
         (yyval.expression).type = EXPRESSION_TYPE_QUANTIFIER;
         (yyval.expression).value.integer = FOR_EXPRESSION_ANY;
       }
-#line 4691 "libyara/grammar.c"
+#line 4697 "libyara/grammar.c"
     break;
 
   case 142: /* for_quantifier: "<none>"  */
-#line 2573 "libyara/grammar.y"
+#line 2579 "libyara/grammar.y"
       {
         yr_parser_emit_push_const(yyscanner, 0);
         (yyval.expression).type = EXPRESSION_TYPE_QUANTIFIER;
         (yyval.expression).value.integer = FOR_EXPRESSION_NONE;
       }
-#line 4701 "libyara/grammar.c"
+#line 4707 "libyara/grammar.c"
     break;
 
   case 143: /* primary_expression: '(' primary_expression ')'  */
-#line 2583 "libyara/grammar.y"
+#line 2589 "libyara/grammar.y"
       {
         (yyval.expression) = (yyvsp[-1].expression);
       }
-#line 4709 "libyara/grammar.c"
+#line 4715 "libyara/grammar.c"
     break;
 
   case 144: /* primary_expression: "<filesize>"  */
-#line 2587 "libyara/grammar.y"
+#line 2593 "libyara/grammar.y"
       {
         fail_if_error(yr_parser_emit(
             yyscanner, OP_FILESIZE, NULL));
@@ -4717,11 +4723,11 @@ yyreduce:
         (yyval.expression).type = EXPRESSION_TYPE_INTEGER;
         (yyval.expression).value.integer = YR_UNDEFINED;
       }
-#line 4721 "libyara/grammar.c"
+#line 4727 "libyara/grammar.c"
     break;
 
   case 145: /* primary_expression: "<entrypoint>"  */
-#line 2595 "libyara/grammar.y"
+#line 2601 "libyara/grammar.y"
       {
         yywarning(yyscanner,
             "using deprecated \"entrypoint\" keyword. Use the \"entry_point\" "
@@ -4733,11 +4739,11 @@ yyreduce:
         (yyval.expression).type = EXPRESSION_TYPE_INTEGER;
         (yyval.expression).value.integer = YR_UNDEFINED;
       }
-#line 4737 "libyara/grammar.c"
+#line 4743 "libyara/grammar.c"
     break;
 
   case 146: /* primary_expression: "integer function" '(' primary_expression ')'  */
-#line 2607 "libyara/grammar.y"
+#line 2613 "libyara/grammar.y"
       {
         check_type((yyvsp[-1].expression), EXPRESSION_TYPE_INTEGER, "intXXXX or uintXXXX");
 
@@ -4751,33 +4757,33 @@ yyreduce:
         (yyval.expression).type = EXPRESSION_TYPE_INTEGER;
         (yyval.expression).value.integer = YR_UNDEFINED;
       }
-#line 4755 "libyara/grammar.c"
+#line 4761 "libyara/grammar.c"
     break;
 
   case 147: /* primary_expression: "integer number"  */
-#line 2621 "libyara/grammar.y"
+#line 2627 "libyara/grammar.y"
       {
         fail_if_error(yr_parser_emit_push_const(yyscanner, (yyvsp[0].integer)));
 
         (yyval.expression).type = EXPRESSION_TYPE_INTEGER;
         (yyval.expression).value.integer = (yyvsp[0].integer);
       }
-#line 4766 "libyara/grammar.c"
+#line 4772 "libyara/grammar.c"
     break;
 
   case 148: /* primary_expression: "floating point number"  */
-#line 2628 "libyara/grammar.y"
+#line 2634 "libyara/grammar.y"
       {
         fail_if_error(yr_parser_emit_with_arg_double(
             yyscanner, OP_PUSH, (yyvsp[0].double_), NULL, NULL));
 
         (yyval.expression).type = EXPRESSION_TYPE_FLOAT;
       }
-#line 4777 "libyara/grammar.c"
+#line 4783 "libyara/grammar.c"
     break;
 
   case 149: /* primary_expression: "text string"  */
-#line 2635 "libyara/grammar.y"
+#line 2641 "libyara/grammar.y"
       {
         YR_ARENA_REF ref;
 
@@ -4802,11 +4808,11 @@ yyreduce:
         (yyval.expression).type = EXPRESSION_TYPE_STRING;
         (yyval.expression).value.sized_string_ref = ref;
       }
-#line 4806 "libyara/grammar.c"
+#line 4812 "libyara/grammar.c"
     break;
 
   case 150: /* primary_expression: "string count" "<in>" range  */
-#line 2660 "libyara/grammar.y"
+#line 2666 "libyara/grammar.y"
       {
         int result = yr_parser_reduce_string_identifier(
             yyscanner, (yyvsp[-2].c_string), OP_COUNT_IN, YR_UNDEFINED);
@@ -4818,11 +4824,11 @@ yyreduce:
         (yyval.expression).type = EXPRESSION_TYPE_INTEGER;
         (yyval.expression).value.integer = YR_UNDEFINED;
       }
-#line 4822 "libyara/grammar.c"
+#line 4828 "libyara/grammar.c"
     break;
 
   case 151: /* primary_expression: "string count"  */
-#line 2672 "libyara/grammar.y"
+#line 2678 "libyara/grammar.y"
       {
         int result = yr_parser_reduce_string_identifier(
             yyscanner, (yyvsp[0].c_string), OP_COUNT, YR_UNDEFINED);
@@ -4834,11 +4840,11 @@ yyreduce:
         (yyval.expression).type = EXPRESSION_TYPE_INTEGER;
         (yyval.expression).value.integer = YR_UNDEFINED;
       }
-#line 4838 "libyara/grammar.c"
+#line 4844 "libyara/grammar.c"
     break;
 
   case 152: /* primary_expression: "string offset" '[' primary_expression ']'  */
-#line 2684 "libyara/grammar.y"
+#line 2690 "libyara/grammar.y"
       {
         int result = yr_parser_reduce_string_identifier(
             yyscanner, (yyvsp[-3].c_string), OP_OFFSET, YR_UNDEFINED);
@@ -4850,11 +4856,11 @@ yyreduce:
         (yyval.expression).type = EXPRESSION_TYPE_INTEGER;
         (yyval.expression).value.integer = YR_UNDEFINED;
       }
-#line 4854 "libyara/grammar.c"
+#line 4860 "libyara/grammar.c"
     break;
 
   case 153: /* primary_expression: "string offset"  */
-#line 2696 "libyara/grammar.y"
+#line 2702 "libyara/grammar.y"
       {
         int result = yr_parser_emit_push_const(yyscanner, 1);
 
@@ -4869,11 +4875,11 @@ yyreduce:
         (yyval.expression).type = EXPRESSION_TYPE_INTEGER;
         (yyval.expression).value.integer = YR_UNDEFINED;
       }
-#line 4873 "libyara/grammar.c"
+#line 4879 "libyara/grammar.c"
     break;
 
   case 154: /* primary_expression: "string length" '[' primary_expression ']'  */
-#line 2711 "libyara/grammar.y"
+#line 2717 "libyara/grammar.y"
       {
         int result = yr_parser_reduce_string_identifier(
             yyscanner, (yyvsp[-3].c_string), OP_LENGTH, YR_UNDEFINED);
@@ -4885,11 +4891,11 @@ yyreduce:
         (yyval.expression).type = EXPRESSION_TYPE_INTEGER;
         (yyval.expression).value.integer = YR_UNDEFINED;
       }
-#line 4889 "libyara/grammar.c"
+#line 4895 "libyara/grammar.c"
     break;
 
   case 155: /* primary_expression: "string length"  */
-#line 2723 "libyara/grammar.y"
+#line 2729 "libyara/grammar.y"
       {
         int result = yr_parser_emit_push_const(yyscanner, 1);
 
@@ -4904,11 +4910,11 @@ yyreduce:
         (yyval.expression).type = EXPRESSION_TYPE_INTEGER;
         (yyval.expression).value.integer = YR_UNDEFINED;
       }
-#line 4908 "libyara/grammar.c"
+#line 4914 "libyara/grammar.c"
     break;
 
   case 156: /* primary_expression: identifier  */
-#line 2738 "libyara/grammar.y"
+#line 2744 "libyara/grammar.y"
       {
         int result = ERROR_SUCCESS;
 
@@ -4951,11 +4957,11 @@ yyreduce:
 
         fail_if_error(result);
       }
-#line 4955 "libyara/grammar.c"
+#line 4961 "libyara/grammar.c"
     break;
 
   case 157: /* primary_expression: '-' primary_expression  */
-#line 2781 "libyara/grammar.y"
+#line 2787 "libyara/grammar.y"
       {
         int result = ERROR_SUCCESS;
 
@@ -4976,11 +4982,11 @@ yyreduce:
 
         fail_if_error(result);
       }
-#line 4980 "libyara/grammar.c"
+#line 4986 "libyara/grammar.c"
     break;
 
   case 158: /* primary_expression: primary_expression '+' primary_expression  */
-#line 2802 "libyara/grammar.y"
+#line 2808 "libyara/grammar.y"
       {
         int result = yr_parser_reduce_operation(
             yyscanner, "+", (yyvsp[-2].expression), (yyvsp[0].expression));
@@ -5015,11 +5021,11 @@ yyreduce:
 
         fail_if_error(result);
       }
-#line 5019 "libyara/grammar.c"
+#line 5025 "libyara/grammar.c"
     break;
 
   case 159: /* primary_expression: primary_expression '-' primary_expression  */
-#line 2837 "libyara/grammar.y"
+#line 2843 "libyara/grammar.y"
       {
         int result = yr_parser_reduce_operation(
             yyscanner, "-", (yyvsp[-2].expression), (yyvsp[0].expression));
@@ -5054,11 +5060,11 @@ yyreduce:
 
         fail_if_error(result);
       }
-#line 5058 "libyara/grammar.c"
+#line 5064 "libyara/grammar.c"
     break;
 
   case 160: /* primary_expression: primary_expression '*' primary_expression  */
-#line 2872 "libyara/grammar.y"
+#line 2878 "libyara/grammar.y"
       {
         int result = yr_parser_reduce_operation(
             yyscanner, "*", (yyvsp[-2].expression), (yyvsp[0].expression));
@@ -5092,11 +5098,11 @@ yyreduce:
 
         fail_if_error(result);
       }
-#line 5096 "libyara/grammar.c"
+#line 5102 "libyara/grammar.c"
     break;
 
   case 161: /* primary_expression: primary_expression '\\' primary_expression  */
-#line 2906 "libyara/grammar.y"
+#line 2912 "libyara/grammar.y"
       {
         int result = yr_parser_reduce_operation(
             yyscanner, "\\", (yyvsp[-2].expression), (yyvsp[0].expression));
@@ -5126,11 +5132,11 @@ yyreduce:
 
         fail_if_error(result);
       }
-#line 5130 "libyara/grammar.c"
+#line 5136 "libyara/grammar.c"
     break;
 
   case 162: /* primary_expression: primary_expression '%' primary_expression  */
-#line 2936 "libyara/grammar.y"
+#line 2942 "libyara/grammar.y"
       {
         check_type((yyvsp[-2].expression), EXPRESSION_TYPE_INTEGER, "%");
         check_type((yyvsp[0].expression), EXPRESSION_TYPE_INTEGER, "%");
@@ -5152,11 +5158,11 @@ yyreduce:
           fail_if_error(ERROR_DIVISION_BY_ZERO);
         }
       }
-#line 5156 "libyara/grammar.c"
+#line 5162 "libyara/grammar.c"
     break;
 
   case 163: /* primary_expression: primary_expression '^' primary_expression  */
-#line 2958 "libyara/grammar.y"
+#line 2964 "libyara/grammar.y"
       {
         check_type((yyvsp[-2].expression), EXPRESSION_TYPE_INTEGER, "^");
         check_type((yyvsp[0].expression), EXPRESSION_TYPE_INTEGER, "^");
@@ -5166,11 +5172,11 @@ yyreduce:
         (yyval.expression).type = EXPRESSION_TYPE_INTEGER;
         (yyval.expression).value.integer = OPERATION(^, (yyvsp[-2].expression).value.integer, (yyvsp[0].expression).value.integer);
       }
-#line 5170 "libyara/grammar.c"
+#line 5176 "libyara/grammar.c"
     break;
 
   case 164: /* primary_expression: primary_expression '&' primary_expression  */
-#line 2968 "libyara/grammar.y"
+#line 2974 "libyara/grammar.y"
       {
         check_type((yyvsp[-2].expression), EXPRESSION_TYPE_INTEGER, "^");
         check_type((yyvsp[0].expression), EXPRESSION_TYPE_INTEGER, "^");
@@ -5180,11 +5186,11 @@ yyreduce:
         (yyval.expression).type = EXPRESSION_TYPE_INTEGER;
         (yyval.expression).value.integer = OPERATION(&, (yyvsp[-2].expression).value.integer, (yyvsp[0].expression).value.integer);
       }
-#line 5184 "libyara/grammar.c"
+#line 5190 "libyara/grammar.c"
     break;
 
   case 165: /* primary_expression: primary_expression '|' primary_expression  */
-#line 2978 "libyara/grammar.y"
+#line 2984 "libyara/grammar.y"
       {
         check_type((yyvsp[-2].expression), EXPRESSION_TYPE_INTEGER, "|");
         check_type((yyvsp[0].expression), EXPRESSION_TYPE_INTEGER, "|");
@@ -5194,11 +5200,11 @@ yyreduce:
         (yyval.expression).type = EXPRESSION_TYPE_INTEGER;
         (yyval.expression).value.integer = OPERATION(|, (yyvsp[-2].expression).value.integer, (yyvsp[0].expression).value.integer);
       }
-#line 5198 "libyara/grammar.c"
+#line 5204 "libyara/grammar.c"
     break;
 
   case 166: /* primary_expression: '~' primary_expression  */
-#line 2988 "libyara/grammar.y"
+#line 2994 "libyara/grammar.y"
       {
         check_type((yyvsp[0].expression), EXPRESSION_TYPE_INTEGER, "~");
 
@@ -5208,11 +5214,11 @@ yyreduce:
         (yyval.expression).value.integer = ((yyvsp[0].expression).value.integer == YR_UNDEFINED) ?
             YR_UNDEFINED : ~((yyvsp[0].expression).value.integer);
       }
-#line 5212 "libyara/grammar.c"
+#line 5218 "libyara/grammar.c"
     break;
 
   case 167: /* primary_expression: primary_expression "<<" primary_expression  */
-#line 2998 "libyara/grammar.y"
+#line 3004 "libyara/grammar.y"
       {
         int result;
 
@@ -5232,11 +5238,11 @@ yyreduce:
 
         fail_if_error(result);
       }
-#line 5236 "libyara/grammar.c"
+#line 5242 "libyara/grammar.c"
     break;
 
   case 168: /* primary_expression: primary_expression ">>" primary_expression  */
-#line 3018 "libyara/grammar.y"
+#line 3024 "libyara/grammar.y"
       {
         int result;
 
@@ -5256,19 +5262,19 @@ yyreduce:
 
         fail_if_error(result);
       }
-#line 5260 "libyara/grammar.c"
+#line 5266 "libyara/grammar.c"
     break;
 
   case 169: /* primary_expression: regexp  */
-#line 3038 "libyara/grammar.y"
+#line 3044 "libyara/grammar.y"
       {
         (yyval.expression) = (yyvsp[0].expression);
       }
-#line 5268 "libyara/grammar.c"
+#line 5274 "libyara/grammar.c"
     break;
 
 
-#line 5272 "libyara/grammar.c"
+#line 5278 "libyara/grammar.c"
 
       default: break;
     }
@@ -5492,5 +5498,5 @@ yyreturnlab:
   return yyresult;
 }
 
-#line 3043 "libyara/grammar.y"
+#line 3049 "libyara/grammar.y"
 
